@@ -151,7 +151,7 @@ def handle(ctx, cases, verdicts, kind):
             ctx.nontrivial((kind, case["H"], case["W"], case["metric"], case["maxn"],
                             tuple(map(tuple, case["img"])), tuple(case["xs"]), tuple(case["ys"])))
         if cl != "ok":
-            ctx.violation("proximity:%s" % cl, cl, {k: case[k] for k in case if k != "events"},
+            ctx.violation("proximity:%s" % cl, cl, {k: case[k] for k in case if k not in ("events", "raw")},
                           "%s %dx%d metric=%s" % (case.get("tag"), case["H"], case["W"], case["metric"]))
         if dr and dr.startswith("drift"):
             ctx.report_drift("step model vs code: %s on %s %s" % (dr, case.get("tag"), case["img"]))
@@ -226,6 +226,16 @@ def run(ctx):
     v = ctx.judge("Proximity_Trace", [strip(c) for c in cases], name="compiled_sample", stateful=True,
                   workers=2)
     handle(ctx, cases, v, "compiled")
+
+
+def replay(ctx, rec):
+    """re-run exactly the recorded case through the real code and the trace specification"""
+    job = rec["case"]["job"]
+    job["events"] = True
+    cases = core.run_jobs("prox_worker", [job], env={"NUMBA_DISABLE_JIT": "1"})
+    v = ctx.judge("Proximity_Trace", [strip(c) for c in cases], name="replay", stateful=True)
+    handle(ctx, cases, v, "replay")
+    ctx.sample({"replayed": rec.get("clause"), "verdict": v.get(0)})
 
 
 META = {
